@@ -121,7 +121,7 @@ def crafted_nested_invariant(s):
 
 def problems(seed, count, features=None, need=None):
     """yields (seed_i, problem) for well-formed generated problems whose initial state is legal; every eighth problem comes from the
-    crafted family `crafted_nested_invariant` (unless the caller restricts the grammar)"""
+    crafted family `crafted_nested_invariant` when the caller does not restrict the grammar (features=None: C01, C02) or asks for it"""
     i = 0
     produced = 0
     while produced < count and i < count * 6:
@@ -130,7 +130,7 @@ def problems(seed, count, features=None, need=None):
         try:
             with warnings.catch_warnings():
                 warnings.simplefilter("ignore")
-                if i % 8 == 3 and need is None and not (features or {}).get("no_crafted"):
+                if i % 8 == 3 and need is None and (features is None or features.get("crafted_nested")):
                     pr = crafted_nested_invariant(s)
                 else:
                     pr = Gen(s, features).problem(f"g{s}")
